@@ -182,6 +182,7 @@ FIXED = [
     ("C06", "dcf989d", "hessian was not symmetric for polynomials whose names are not stored in index order"),
     ("C07", "75b39ea", "comparisons / maximum / minimum of operands that all carry the same name tuple stored out of index order (symbols('q2 q1')) ordered monomials by the stored columns: with sort_graded=False, q1**2 < q2 is True but False for the same polynomials stored over (q2, q1) (found by the quick sweep at VERIF_SEED=6)"),
     ("C19", "a15c0d3", "lead_exponent / lead_coefficient / sortable_proxy of a polynomial whose names are stored out of index order picked the leading term by the stored column order"),
+    ("C03", "c3b2c18", "polynomial_from_attributes with names omitted and retain_names=False dropped the unused exponent columns first and numbered the default names afterwards: exponents [[0, 1]] became 2*q0 instead of 2*q1 (found after a surviving mutant showed that no driver passed names as a string / omitted them)"),
     ("C03", "64ca5a4", "monomial over an empty index range in D > 1 dimensions returned an object whose storage key width (1) did not match its D names"),
 ]
 
